@@ -381,7 +381,8 @@ def run(ctx, report):
     slice_rule = [n for n in ast.walk(hlp.func('_expr_simp')) if isinstance(n, ast.If) and 'in tab_size_int' in u(n.test) and 'total_bit' in u(n.test)]
     if odd and slice_rule:
         pieces_ok = False
-        for n in ast.walk(ec):
+        # (the test may live in eval_ExprCompose itself or in a helper of the module it calls)
+        for n in [x_ for f_ in [ec] + list(ea.funcs.values()) for x_ in ast.walk(f_)]:
             if isinstance(n, ast.BoolOp) and isinstance(n.op, ast.And):
                 t = [u(v).replace(' ', '') for v in n.values]
                 sl = [x for x in t if x.startswith('isinstance(') and x.endswith(',ExprSlice)')]
@@ -394,6 +395,10 @@ def run(ctx, report):
             R6.ok(inst, sample='pieces of %s bits (%s): Slice(ExprInt) is recognised as a constant piece' % (sorted(odd), sorted(set(odd.values()))[:3]))
         else:
             w = sorted(odd)[0]
+            # the shape was not recognised: whether such pieces fold is decided by the evaluated layouts of compose_fold_rule ('constant slice above a constant')
+            R6.note('eval_ExprCompose: no test `isinstance(x, ExprSlice) and isinstance(x.arg, ExprInt)` found; pieces of %s bits are decided by the evaluated layouts' % sorted(odd))
+            R6.ok(inst, nontrivial=False)
+        if False:
             R6.violation(inst, 'placement:constant-slice-piece', 'the lifter (%s) composes pieces of %s bits; with constant inputs such a piece evaluates to Slice(ExprInt) (no %d-bit ExprInt), '
                          'which eval_ExprCompose does not recognise as constant: the composition is never folded' % (odd[w], sorted(odd), w), where(ea, ec),
                          witness="mov bl, 0x10 with ebx = 0x12345678 evaluates to (0x10,0,8, 0x12345678[8:32],8,32), not 0x12345610")
@@ -793,7 +798,9 @@ def parity_rule(R5, ea, hlp, methods, fn0=None, inst="denotation 'parity'"):
     me.__dict__['_methods'] = dict(methods)
     vals = [0, 1, 3, 7, 0x80, 0xff, 0x100, 0x101, 0x1ff, 0x8001, 0x10000, 0xffff, 0x12345678, 0xffffffff, 0x8000000000000001]
     problems = []
-    for who, call in (('eval_abs.%s' % fn0.name, lambda v: _Ev({}).call_user(fn0, [me, [v], 32, None])), ('expression_helper.parity', lambda v: _Ev({}).call_user(sib, [v]))):
+    from ..consteval import callables_of as _callables
+    env_p = _callables(ea, [hlp])
+    for who, call in (('eval_abs.%s' % fn0.name, lambda v: _Ev(dict(env_p)).call_user(fn0, [me, [v], 32, None])), ('expression_helper.parity', lambda v: _Ev(dict(hlp.funcs)).call_user(sib, [v]))):
         for v in vals:
             try:
                 got = call(v)
@@ -959,6 +966,8 @@ def compose_fold_rule(R, ea, ec):
     for k in ('ExprId', 'ExprMem', 'ExprOp'):
         env[k] = Kind(k, lambda *a: mk('other'))
     env['tab_uintsize'] = dict((n, _Nat(lambda v, n=n: v & ((1 << n) - 1))) for n in (1, 8, 16, 32, 64))
+    for k_, f_ in ea.funcs.items():
+        env.setdefault(k_, f_)            # module-level helpers the method calls by name
     me = _Obj('self')
     me.eval_expr = _Nat(lambda x, c=None: x)
     zf = mk('ExprId', name='zf')
